@@ -51,5 +51,5 @@ def on_case(op, body, impl_out, model_out):
 
 
 def families(tier, seed):
-    n = 400 if tier == "quick" else 8000
+    n = 2000 if tier == "quick" else 40000
     return [("index", seed, n, [])]
